@@ -897,12 +897,17 @@ def run_numeric(func_module, func_name, kwargs, member_seed, dir_seed, dim, adve
             def fun(z):
                 _p, c2 = execute(scale, [z[i * dim:(i + 1) * dim] for i in range(nf)])
                 return residuals(c2)
-            if len(fun(z0)) == 0:
+            r0 = fun(z0)
+            if len(r0) == 0:
                 raise Unsupported("free point without equality constraints")
-            sol = least_squares(fun, z0, xtol=1e-15, ftol=1e-15, gtol=1e-15, max_nfev=200)
-            if np.linalg.norm(sol.fun) > 1e-11 * (1.0 + np.linalg.norm(sol.x)):
-                raise Unsupported("free point equations not solved (residual %.2e)" % np.linalg.norm(sol.fun))
-            free_cache["z"] = [sol.x[i * dim:(i + 1) * dim] for i in range(nf)]
+            if free_cache["z"] and np.linalg.norm(r0) <= 1e-11 * (1.0 + np.linalg.norm(z0)):
+                zsol = z0                     # the equations do not depend on the scale of the start: already solved
+            else:
+                sol = least_squares(fun, z0, xtol=1e-15, ftol=1e-15, gtol=1e-15, max_nfev=200)
+                if np.linalg.norm(sol.fun) > 1e-11 * (1.0 + np.linalg.norm(sol.x)):
+                    raise Unsupported("free point equations not solved (residual %.2e)" % np.linalg.norm(sol.fun))
+                zsol = sol.x
+            free_cache["z"] = [zsol[i * dim:(i + 1) * dim] for i in range(nf)]
             perf, ctx = execute(scale, free_cache["z"])
         worst = -float("inf")
         for c, tag in ctx.constraints:
